@@ -651,6 +651,16 @@ def memo_guarded(f, model):
                 for st in n.body:
                     for x in ast.walk(st):
                         out.add(id(x))
+    # form (c): T.setdefault(key, <a new empty container>) - the one-call spelling of ``if key not in T: T[key] = <empty>``
+    for n in ast.walk(f.node):
+        if isinstance(n, ast.Call) and isinstance(n.func, ast.Attribute) and n.func.attr == 'setdefault' and len(n.args) == 2 and \
+                class_rooted(n.func.value, f, model, ()) and key_covers(n.func.value, n.args[0]):
+            d = n.args[1]
+            empty = (isinstance(d, (ast.List, ast.Dict, ast.Set, ast.Tuple)) and not getattr(d, 'elts', getattr(d, 'keys', []))) or \
+                (isinstance(d, ast.Call) and not d.args and not d.keywords and ast.unparse(d.func).split('.')[-1] in ('OrderedDict', 'dict', 'list', 'set', 'defaultdict'))
+            if empty:
+                for x in ast.walk(n):
+                    out.add(id(x))
     return out
 
 
